@@ -40,7 +40,8 @@ class Binomial(DiscreteRandomVariable):
         self.p = p
 
     def cdf(self, x):
-        return sum(self.pmf(k) for k in range(x+1))
+        # No mass lies above n, so there is nothing to add beyond it.
+        return sum(self.pmf(k) for k in range(min(x, self.n)+1))
 
     def pmf(self, x):
         if x < 0 or x > self.n:
